@@ -209,7 +209,10 @@ func filterNodeEvent(e event.UpdateEvent) bool {
 	if !ok {
 		return true
 	}
-	if labels.Equals(labels.Set(oldNodeObj.Labels), labels.Set(newNodeObj.Labels)) {
+	// The configuration depends on the node's labels (node selectors) and on its
+	// addresses (a pool must not contain a node's internal IP).
+	if labels.Equals(labels.Set(oldNodeObj.Labels), labels.Set(newNodeObj.Labels)) &&
+		reflect.DeepEqual(oldNodeObj.Status.Addresses, newNodeObj.Status.Addresses) {
 		return false
 	}
 	return true
